@@ -297,7 +297,7 @@ fn map_cached(t: &TreeSpec, cid: u32, new: &TreeSpec) -> TreeSpec {
 
 fn op_shrinks(k: &OpKind) -> Vec<OpKind> {
   match k {
-    OpKind::CloneThen { then } | OpKind::ChildFault { then, .. } => vec![(**then).clone()],
+    OpKind::CloneThen { then, .. } | OpKind::ChildFault { then, .. } => vec![(**then).clone()],
     OpKind::Stream { columns, abort_at: Some(_) } => vec![OpKind::Stream { columns: *columns, abort_at: None }],
     OpKind::ToWriter { plan } if *plan != Default::default() => vec![OpKind::ToWriter { plan: Default::default() }],
     _ => vec![],
